@@ -83,6 +83,11 @@ def check_string(case):
         # documentation and implementation disagree on them, neither reading is demanded
         return
     ref = refparse(text, sep)
+    # what the very first caller does with its own result (emptying components, as format_label's documentation suggests)
+    # must not reach any later caller
+    scratch = parse(text, sep)
+    for comp in ("label", "gf", "gapindex", "coindex", "headmarker"):
+        setattr(scratch, comp, "")
     parsed = parse(text, sep)
     got = {f: getattr(parsed, f, None) for f in FIELDS}
     if ref["label"] == "*":
